@@ -594,9 +594,11 @@ class Tile(object):
         self.source = source
         self.location = None
         self.stored = False
-        self._cacheable = cacheable
+        self._cacheable = True
         self.size = None
         self.timestamp = None
+        # bool or CacheInfo (e.g. the cacheable attribute of an image from a cache source)
+        self.cacheable = cacheable
 
     def _cacheable_get(self):
         return CacheInfo(cacheable=self._cacheable, timestamp=self.timestamp,
